@@ -164,6 +164,14 @@ func (it *Interp) opaqueOfType(t types.Type, tag string) Val {
 		return &Native{Kind: "opaque", Tag: t.String() + "@" + tag}
 	case *types.Interface:
 		if t.String() == "error" {
+			// an abstracted function may fail: the choice is a solver variable
+			if it.inInit == 0 && it.p != nil && !it.p.isInit {
+				v := Var(it.p.freshName(tag+".fails"), SBool)
+				it.p.sources = append(it.p.sources, Source{Kind: "bool", Tag: tag + ".fails", Terms: []*Term{v}})
+				if it.p.branch(v) {
+					return it.newErr(IfaceV{}, tag)
+				}
+			}
 			return IfaceV{}
 		}
 		return IfaceV{V: &Native{Kind: "opaque", Tag: t.String() + "@" + tag}}
